@@ -59,6 +59,13 @@ func gen(c *hmain.Ctx) {
 	for i := 0; i < 2*c.Scale; i++ {
 		jobs = append(jobs, &pipedrv.Job{Stream: "expand-procs", Case: pipedrv.ExpandProcs(2500, 1600, 2+i%3, i%2 == 1)})
 	}
+	// families that reach code of the anchored files no older family executes (notes/coverage/C02-triage.md; what each
+	// would expose: pipedrv/gen.go): In() variety, match / metric options, commits handed to the real file-input provider
+	// (plugin/input/file/provider.go commit: monitor 16), shutdown with events in flight, batches sealed by byte size
+	for _, f := range pipedrv.CoverageFamilies(16, 10, 20, 24, 8) {
+		add(f.Stream, f.Opts, f.N)
+	}
+	jobs = append(jobs, pipedrv.DirectedStops(c.Scale)...)
 	pipedrv.RunJobs(jobs, 40)
 	for _, j := range jobs {
 		pipedrv.Stats(c.W.Count, j)
@@ -69,6 +76,6 @@ func gen(c *hmain.Ctx) {
 func main() {
 	pipedrv.UseProductionNodePool()
 	hmain.Run(&hmain.Prop{ID: "C02",
-		Rule: "each case = (pipeline config: processors, pool kind/capacity, event time-out, action count, output kind/workers/batch size/retry/dead queue; per-source feeder scripts of JSON events whose 'ops' field scripts every action: pass/discard/hold/continue/break/split; send delay/failure plan) run on the real pipeline; observable = label trace of streams, processors, finalize, batchers. Threshold-crossing families: capacity-1, slow-flush (flush >= 100 ms), hold-slow (event time-out > 200 ms), recycle (feeder op 6: pads up to 64 KiB / > 64 JSON nodes; op 'g' grows Buf; 4th case element = (avgEventSize retentionMs multiplierPercent maintenanceMs)), split-fan (0-14 children with their own ops), retry-backoff, maintenance; directed expand-procs / stale-unblock-slow. Every case is non-trivial (>= 3 events); distinct = distinct case text.",
+		Rule: "each case = (pipeline config: processors, pool kind/capacity, event time-out, action count, output kind/workers/batch size/retry/dead queue; per-source feeder scripts of JSON events whose 'ops' field scripts every action: pass/discard/hold/continue/break/split; send delay/failure plan) run on the real pipeline; observable = label trace of streams, processors, finalize, batchers. Threshold-crossing families: capacity-1, slow-flush (flush >= 100 ms), hold-slow (event time-out > 200 ms), recycle (feeder op 6: pads up to 64 KiB / > 64 JSON nodes; op 'g' grows Buf; 4th case element = (avgEventSize retentionMs multiplierPercent maintenanceMs)), split-fan (0-14 children with their own ops), retry-backoff, maintenance; directed expand-procs / stale-unblock-slow. Coverage families (notes/coverage): in-variety (ext's 6th element = ((key value) ...) options of pipedrv.xopts: decoder raw / cri / auto / suggested, MaxEventSize drop / cut-off, antispam threshold, meta data, source-name meta field, saved stream offsets; empty records, non-CRI lines), match-variety (match modes or / and_prefix / or_prefix / do_if / invert, metric options), file-commit (InputPlugin.Commit handed to the real file-input jobProvider.commit: labels 118 / 119), early-stop (Pipeline.Stop with events in flight, random and directed stop-while-held; feeder op 7 asks for the stop; labels 116 / 120), batch-bytes (BatchSizeBytes). Every case is non-trivial (>= 3 events); distinct = distinct case text.",
 		Gen:  gen, Exec: func(which int, cs hx.Sx) hx.Sx { return pipedrv.RunCase(cs) }})
 }
